@@ -141,9 +141,9 @@ def select_only(vm, n_builders, k, strategy):
 
 def create_builder(vm, ledger, account, pay, results, fate):
     fate = bool(fate)
-    out = Output.pay_pubkey_hash(pay, b'\x07' * 20)
+    outs = [Output.pay_pubkey_hash(pay, b'\x07' * 20)] if pay is not None else []      # None: an inputs-only build
     try:
-        tx = vm.await_(Transaction.create([], [out], [account], account, False))
+        tx = vm.await_(Transaction.create([], outs, [account], account, False))
     except InsufficientFundsError:
         results.append(('failed', []))
         return
@@ -159,19 +159,20 @@ def create_builder(vm, ledger, account, pay, results, fate):
     results.append(('finished', sel))
 
 
-def create_concurrent(vm, n_builders, k, strategy, fates=None):
+def create_concurrent(vm, n_builders, k, strategy, fates=None, inputs_only=False):
     """n concurrent Transaction.create calls, each then broadcast or abandoned at an arbitrary later point."""
     VM_REF[0] = vm
     SCHED[0] = Sched(vm)
     ledger = StubLedger()
     ledger.coin_selection_strategy = strategy
     shared = k >= 2 and vm.new_bool('outputs_of_one_funding_tx')
-    utxos = [make_utxo(i, vm.new_int('utxo', 10 ** 5, 10 ** 9), 1, 0 if shared else None) for i in range(k)]
+    utxos = [make_utxo(i, vm.new_int('utxo', 0 if inputs_only else 10 ** 5, 10 ** 9), 1, 0 if shared else None) for i in range(k)]
     account = StubAccount(ledger, utxos)
     results = []
     for b in range(n_builders):
         fate = vm.new_bool('broadcast') if fates is None else fates[b]
-        SCHED[0].spawn(create_builder, [vm, ledger, account, vm.new_int('pay', 1, 10 ** 9), results, fate])
+        pay = None if inputs_only else vm.new_int('pay', 1, 10 ** 9)
+        SCHED[0].spawn(create_builder, [vm, ledger, account, pay, results, fate])
     try:
         SCHED[0].run_all()
     except InsufficientFundsError:
@@ -240,6 +241,11 @@ def jobs(tier):
         out.append(dict(name='create-2builders-1utxo-default', family='create', fn='create_concurrent', args=(2, 1, None),
                         loop_bound=300, max_depth=60, cost=1000,
                         bounds=dict(builders=2, utxos=1, strategy='default', fates='broadcast or abandon, symbolic',
+                                    schedule='every interleaving at db awaits'), must_reach=('ok',)))
+    for nb in ((1,) if tier == 'quick' else (1, 2)):
+        out.append(dict(name=f'create-{nb}builders-2utxo-inputs-only', family='create', fn='create_concurrent',
+                        args=(nb, 2, None, None, True), loop_bound=300, max_depth=60, cost=1000 * nb,
+                        bounds=dict(builders=nb, utxos='2, amounts 0..1e9', outputs='none (several selection rounds per build)',
                                     schedule='every interleaving at db awaits'), must_reach=('ok',)))
     return out
 
